@@ -92,6 +92,9 @@ func (c *Chunk) Data(compressingType byte) ([]byte, error) {
 		w = &buff
 	}
 	err := nbt.NewEncoder(w).Encode(c, "")
+	if wc, ok := w.(io.Closer); ok && err == nil {
+		err = wc.Close() // flush the compressor
+	}
 	return buff.Bytes(), err
 }
 
